@@ -1,0 +1,64 @@
+//go:build verif
+
+// Contracts for api.go, option.go, disasm.go, printstats.go
+// (see /verif/DESIGN.md section 7: C03, C17, C19). Comment-only file.
+
+package bcl
+
+//@ group C19
+//@ ghost var execs int   // number of Execute calls made (specification only)
+
+// ---------------------------------------------------------------------------
+// options only set flags and writers (C19)
+//
+//@ slot Option (cf *config)
+//@   modifies config.disasm, config.trace, config.stats, config.output, config.logw
+//
+//@ func makeConfig
+//@   loop 1 invariant 0 - 1 <= rangeindex
+//
+//@ func printPStats
+//@   modifies nothing
+//@ func printXStats
+//@   modifies nothing
+
+// ---------------------------------------------------------------------------
+// disassembly lists every instruction exactly once, at its offset, advancing by
+// the same instruction-length table as the VM (C19, C10). The well-formedness of
+// each instruction is the hypothesis established on the compiler side (C10).
+//
+//@ group C19,C10
+//@ func (*Prog).disasm
+//@   requires line_table: p.linePos != nil
+//@   loop 1 invariant at_boundary: 0 <= offset && p.linePos != nil
+//@   loop 1 assume instruction_well_formed: wfInstr(p, offset)
+//@   loop 1 step each_instruction_once: offset == prev(offset) + instrLen(p, prev(offset))
+//@   loop 1 increases offset
+//@   modifies nothing
+
+// ---------------------------------------------------------------------------
+// API functions
+//
+//@ group C03,C17,C19
+//@ func execute
+//@   requires program_complete: p != nil && p.linePos != nil
+//@   assert [C03] results_returned_even_with_error: result0 == vm.result && result1 == vm.binding && result3 == err
+//@   modifies nothing
+//
+//@ func Execute
+//@   requires program_complete: prog != nil && prog.linePos != nil
+//@   ghost execs = g.execs + 1
+//
+//@ func parseWithOpts
+//@   ensures [C17] error_iff_diagnostic: (result1 != nil) <==> g.diags > 0
+//@   ensures result0 != nil
+//@   ensures [C19] complete_when_ok: result1 == nil ==> result0.linePos != nil
+//
+//@ func Parse
+//@   ensures [C17] error_iff_diagnostic: (result1 != nil) <==> g.diags > 0
+//@   ensures result0 != nil
+//@   ensures complete_when_ok: result1 == nil ==> result0.linePos != nil
+//
+//@ func Interpret
+//@   ensures [C17] no_results_on_parse_error: g.diags > 0 ==> (len(result0) == 0 && result1 == nil && result2 != nil && g.execs == old(g.execs))
+//@   assert [C17] executed_only_after_successful_parse: at Execute#1: g.diags == 0
